@@ -435,21 +435,35 @@ def c17_tables_s(draw):
 
 
 EDITS = ["add_svc", "del_svc", "proto_inplace", "add_rule", "del_rule", "rule_field_inplace", "rule_add_criterion", "rule_del_criterion", "noop",
-         "del_svc", "add_svc", "proto_inplace", "rule_field_inplace", "rule_field_case", "rule_field_case", "empty_tables", "omit_section"]
+         "del_svc", "add_svc", "proto_inplace", "rule_field_inplace", "rule_field_case", "rule_field_case", "empty_tables", "omit_section",
+         "add_svc_with_rule", "add_rule_future_svc"]
+WANTED_SVC = []   # services that a rule added by an earlier edit of the current case names but the table does not have yet
 
 
 OMIT = set()      # sections the file produced by the current edit leaves out (filled by apply_edit, read by c17_s)
 
 
-def apply_edit(draw, services, rules):
+def apply_edit(draw, services, rules, force=None):
     services = copy.deepcopy(services)
     rules = copy.deepcopy(rules)
-    kind = draw(st.sampled_from(EDITS))
+    kind = force or draw(st.sampled_from(EDITS))
     used = [s[0] for s in services]
     if kind == "add_svc":
         free = [n for n in C17_SVCS if n not in used]
+        want = [n for n in WANTED_SVC if n in free]
         if free:
-            services.insert(draw(st.integers(0, len(services))), [draw(st.sampled_from(free)), draw(st.sampled_from(proto.PROTOCOLS))])
+            services.insert(draw(st.integers(0, len(services))), [draw(st.sampled_from(want or free)), draw(st.sampled_from(proto.PROTOCOLS))])
+    elif kind in ("add_svc_with_rule", "add_rule_future_svc"):
+        # a rule that asks for an OK of a service which the same reload - or a later one - brings
+        free = [n for n in C17_SVCS if n not in used]
+        rfree = [n for n in C17_RULES + ["a0", "A1"] if n.lower() not in [r[0].lower() for r in rules]]
+        if free and rfree:
+            nm = draw(st.sampled_from(free))
+            rules.append([draw(st.sampled_from(rfree)), {"xreply_ok": nm if draw(st.integers(0, 3)) else nm.swapcase(), "class": "checked"}])
+            if kind == "add_svc_with_rule":
+                services.insert(draw(st.integers(0, len(services))), [nm, draw(st.sampled_from(proto.PROTOCOLS))])
+            else:
+                WANTED_SVC.append(nm)
     elif kind == "del_svc" and services:
         services.pop(draw(st.integers(0, len(services) - 1)))
     elif kind == "proto_inplace" and services:
@@ -510,9 +524,13 @@ def c17_s(draw, pid, tier, opts=None):
     cur_s, cur_r = services, rules
     kinds = []
     omits = []
+    del WANTED_SVC[:]
     for _ in range(draw(st.sampled_from([1, 1, 1, 2, 2, 3]))):
         OMIT.clear()
-        k, cur_s, cur_r = apply_edit(draw, cur_s, cur_r)
+        if WANTED_SVC and draw(st.booleans()):
+            k, cur_s, cur_r = apply_edit(draw, cur_s, cur_r, "add_svc")
+        else:
+            k, cur_s, cur_r = apply_edit(draw, cur_s, cur_r)
         kinds.append(k)
         steps.append([cur_s, cur_r])
         omits.append(sorted(OMIT))
